@@ -29,4 +29,18 @@ theorem cpp_runtime_names_cover :
 theorem cpp_raw_generated_names_is_source :
     Generated.cppRawGeneratedNames = "(part([2-9]|[1-9][0-9]+)|_discriminator)\\Z" := by decide
 
+/-- the names of `prophy::detail` and of the generated classes that the full codec's sources use unqualified are refused by
+`--cpp_full_out` (D195); `array` and `optional` also as member names -/
+theorem cpp_full_runtime_names_cover :
+    ["array", "optional", "message", "message_impl", "encoder", "decoder", "printer", "align", "align_ptr", "alignment", "nearest",
+     "byte_size", "int2type", "codec_traits", "print_traits", "do_encode", "do_decode", "do_print", "endianness", "detail",
+     "generated", "swap", "discriminator", "encode", "decode", "print", "get_byte_size"].all
+      (fun n => Generated.cppFullRuntimeNames.contains n) = true ∧
+    ["array", "optional"].all (fun n => Generated.cppFullMemberNames.contains n) = true := by decide
+
+/-- the names of the raw codec's runtime that its generated sources use unqualified are refused by `--cpp_out` (D195) -/
+theorem cpp_raw_runtime_names_cover :
+    ["swap", "cast", "bool_t", "detail", "align", "align_ptr", "alignment", "swap_n_fixed", "swap_n_dynamic", "discriminator"].all
+      (fun n => Generated.cppRawRuntimeNames.contains n) = true := by decide
+
 end Prophy.Tables
